@@ -179,3 +179,17 @@ Theorem C03_fragment_headings_instance :
     $"<h6>deep</h6>" ++ [10] ++ $"<p>f</p>" ++ [10] ++ $"</li>" ++ [10] ++ $"</ul>" ++ [10] ++ $"</blockquote>".
 Proof. vm_compute. repeat split; reflexivity. Qed.
 Print Assumptions C03_fragment_headings_instance.
+
+(* The character scanners of the inline-link parser are the source's: shift_whitespace, match_link_dest (both of its loops,
+   with the escape flag and the parenthesis count) and match_link_title are translated from core_tokens.py on every run -
+   each `for i, c in enumerate(string[E:], start=E)` loop becomes a Fixpoint over the suffix (harness/gen/gen_core.py,
+   Gen/GenCore.v) - and the model's hand-written scanners are proved equal to them wherever the callers can call them
+   (an offset inside the string).  Proofs/CoreRegen.v. *)
+From Mistletoe Require Import Base.PyText Model.CoreTokens Gen.GenCore Proofs.CoreRegen.
+Theorem C03_link_scanners_are_the_source : forall s offset,
+  ((0 <= offset + 1 <= slen s)%Z -> g_match_link_dest s offset = match_link_dest s offset) /\
+  ((0 <= offset <= slen s)%Z -> g_match_link_title s offset = match_link_title s offset /\ g_shift_whitespace s offset = shift_whitespace s offset).
+Proof.
+  intros s offset. split; [apply match_link_dest_regen|]. intros H. split; [apply match_link_title_regen; exact H|apply shift_whitespace_regen; exact H].
+Qed.
+Print Assumptions C03_link_scanners_are_the_source.
